@@ -3,5 +3,5 @@ CONSTANTS DBits = 3
           N = 2
           ByteBits = 3
           CarryVals = "some"
-INVARIANTS MulOK MidOK DivOK RoundDivOK CountOK FmtOK ConvOK
+INVARIANTS MulOK MidOK DivOK RoundDivOK ShiftWrapOK CountOK FmtOK ConvOK
 CHECK_DEADLOCK FALSE
